@@ -10,6 +10,7 @@
 // until <role> has passed <point> n times" (with a timeout, so a schedule that the code cannot follow is simply abandoned).
 #include <vsched.h>
 #include <fstream>
+#include <stdexcept>
 #include <tbox/base/verif_hook.h>
 #include <tbox/event/loop.h>
 #include <tbox/eventx/thread_pool.h>
@@ -112,15 +113,16 @@ static std::thread g_thB;
 static thread_local bool tl_is_b = false;
 static const char *on_which() { return is_main() ? "M" : tl_is_b ? "B" : "X"; }
 
-static void do_exec(int k, int prio, int dur_us, bool cb, bool onB = false) {
+static void do_exec(int k, int prio, int dur_us, bool cb, bool onB = false, bool throws = false) {
     while ((int)g_tasks.size() <= k) g_tasks.push_back(new TaskRec);
     TaskRec *r = g_tasks[k];
     r->has_cb = cb;
     tl_cur_task = k;
-    auto body = [k, r, dur_us] {
+    auto body = [k, r, dur_us, throws] {
         emit(J("body") + kv("t", k) + kb("worker", !is_main() && tl_worker > 0) + "}");
         if (dur_us > 0) std::this_thread::sleep_for(std::chrono::microseconds(dur_us));
         r->body++;
+        if (throws) throw std::runtime_error("task body throws");     // the pool catches it: the task has been executed all the same
     };
     auto done = [k, r] { emit(J("cb") + kv("t", k) + ks("on", on_which()) + "}"); r->cb++; };
     onB = onB && g_work && g_loopB && cb;
@@ -199,7 +201,7 @@ static void run_execution(const json &x) {
         std::string o = op["o"];
         if (op.value("call", false)) { if (S().seq_wait("M", "call")) S().seq_done("M", "call"); }     // its turn in the replayed behaviour
         if (o == "init") { do_init(op["min"], op["max"]); }
-        else if (o == "exec") do_exec(op["t"], op.value("prio", 0), op.value("us", 0), op.value("cb", false), op.value("loop", std::string("M")) == "B");
+        else if (o == "exec") do_exec(op["t"], op.value("prio", 0), op.value("us", 0), op.value("cb", false), op.value("loop", std::string("M")) == "B", op.value("throw", false));
         else if (o == "status") do_status(op["t"]);
         else if (o == "cancel") do_cancel(op["t"]);
         else if (o == "spin") { for (int i = 0; i < op.value("n", 1); ++i) spin_loop(); }
@@ -246,7 +248,7 @@ static json random_execution(vh::Rng &rng, uint64_t seed) {
         if (r < 45 || nt == 0) {
             ++nt;
             int us = rng.chance(50) ? 0 : rng.chance(70) ? (int)rng.range(1, 300) : (int)rng.range(300, 3000);
-            ops.push_back({{"o", "exec"}, {"t", nt}, {"prio", (int)rng.range(-3, 3)}, {"us", us}, {"cb", rng.chance(50)}, {"loop", (work && rng.chance(40)) ? "B" : "M"}});
+            ops.push_back({{"o", "exec"}, {"t", nt}, {"prio", (int)rng.range(-3, 3)}, {"us", us}, {"cb", rng.chance(50)}, {"loop", (work && rng.chance(40)) ? "B" : "M"}, {"throw", rng.chance(12)}});
         } else if (r < 65) ops.push_back({{"o", "status"}, {"t", (int)rng.range(1, nt)}});
         else if (r < 80) ops.push_back({{"o", "cancel"}, {"t", (int)rng.range(1, nt)}});
         else if (r < 90) ops.push_back({{"o", "spin"}, {"n", (int)rng.range(1, 3)}});
